@@ -74,10 +74,18 @@ func VerifC18CommonFlags() {
 		c := v1.NewVisitorConfigurerByType(v1.VisitorType(typ))
 		cmd := &cobra.Command{Use: "v"}
 		RegisterVisitorFlags(cmd, c)
-		err := cmd.Flags().Parse([]string{"--visitor_name=v1", "--ue", "--uc", "--sk=secret", "--server_name=p1", "--server-user=bob", "--bind_addr=127.0.0.2", "--bind_port=9000"})
+		args := []string{"--visitor_name=v1", "--sk=secret", "--server_name=p1", "--server-user=bob", "--bind_addr=127.0.0.2", "--bind_port=9000"}
+		ue, uc := zzverif.Bool("ue"), zzverif.Bool("uc")
+		if ue {
+			args = append(args, "--ue")
+		}
+		if uc {
+			args = append(args, "--uc")
+		}
+		err := cmd.Flags().Parse(args)
 		b := c.GetBaseConfig()
 		zzverif.Assert(err == nil, "C18.cflags.documented-flags-parse")
-		zzverif.Assert(b.Name == "v1" && b.Transport.UseEncryption && b.Transport.UseCompression && b.SecretKey == "secret" && b.ServerName == "p1" && b.ServerUser == "bob" && b.BindAddr == "127.0.0.2" && b.BindPort == 9000, "C18.cflags.visitor-fields-as-in-a-file")
+		zzverif.Assert(b.Name == "v1" && b.Transport.UseEncryption == ue && b.Transport.UseCompression == uc && b.SecretKey == "secret" && b.ServerName == "p1" && b.ServerUser == "bob" && b.BindAddr == "127.0.0.2" && b.BindPort == 9000, "C18.cflags.visitor-fields-as-in-a-file")
 		zzverif.Reach("C18.cflags.visitor")
 	}
 }
